@@ -248,7 +248,8 @@ def _project_interactions(bi):
         for x in getattr(bi, attr):
             c1, n1, i1, r1 = _res(x.nt1)
             c2, n2, i2, r2 = _res(x.nt2)
-            items.append({"list": attr, "cat": cat, "type": type(x).__name__, "cls": _value(getattr(x, field)) if field else "",
+            own = [f for f in ("lw", "topology", "br", "bph") if hasattr(x, f)]       # the object's own class field
+            items.append({"list": attr, "cat": cat, "type": type(x).__name__, "cls": _value(getattr(x, own[0])) if own else "",
                           "c1": c1, "n1": n1, "i1": i1, "r1": r1, "c2": c2, "n2": n2, "i2": i2, "r2": r2})
     return items
 
@@ -301,10 +302,13 @@ def record_listing(case):
     res = {"err": "", "items": []}
     try:
         if c["via"] == "api":
+            bi = None
             try:
-                res["items"] = _project_interactions(parse_fr3d_output(path))
-            except Exception as e:
+                bi = parse_fr3d_output(path)
+            except Exception as e:                       # the code raising is data
                 res["err"] = type(e).__name__
+            if bi is not None:
+                res["items"] = _project_interactions(bi)
         else:
             out = _tmp("main.json")
             res["err"] = _run_main([os.path.join(lib.REPO, "tests", c["struct"]), "--external", path, "--tool", "fr3d",
@@ -520,12 +524,14 @@ def record_dssr(case):
 
     try:
         if c["via"] == "api":
+            bi = None
             try:
                 bi = parse_dssr_output(path, s3d)
+            except Exception as e:                       # the code raising is data
+                res["err"] = type(e).__name__
+            if bi is not None:
                 res["bp"] = [[index_of(x.nt1), index_of(x.nt2), _value(x.lw)] for x in bi.basePairs]
                 res["st"] = [[index_of(x.nt1), index_of(x.nt2)] for x in bi.stackings]
-            except Exception as e:
-                res["err"] = type(e).__name__
         else:
             out = _tmp("main.json")
             res["err"] = _run_main([os.path.join(lib.REPO, "tests", c["struct"]["file"]), "--external", path,
